@@ -302,3 +302,192 @@ func checkUnsignedCarry(c *core.Ctx, handlers []handlerRef) {
 		visit(root, 0)
 	}
 }
+
+// constU64: folds a value to a constant through conversions, the bit-cast helpers
+// int32ToBits / Int32ToBits, and +,- of constants.
+func constU64(v ssa.Value, depth int) (uint64, bool) {
+	if depth > 6 {
+		return 0, false
+	}
+	switch x := v.(type) {
+	case *ssa.Const:
+		if x.Value == nil {
+			return 0, false
+		}
+		switch x.Value.Kind() {
+		case constant.Int:
+			if i, ok := constant.Int64Val(x.Value); ok {
+				return uint64(i), true
+			}
+			if u, ok := constant.Uint64Val(x.Value); ok {
+				return u, true
+			}
+		case constant.Float:
+			f, _ := constant.Float64Val(x.Value)
+			return uint64(int64(f)), true
+		}
+	case *ssa.Convert:
+		k, ok := constU64(x.X, depth+1)
+		if !ok {
+			return 0, false
+		}
+		if n, isU := uTypeBits(x.Type()); isU && n < 64 {
+			k &= (uint64(1) << uint(n)) - 1
+		}
+		return k, true
+	case *ssa.Call:
+		if cal := x.Call.StaticCallee(); cal != nil && (cal.Name() == "int32ToBits" || cal.Name() == "Int32ToBits") && len(x.Call.Args) == 1 {
+			k, ok := constU64(x.Call.Args[0], depth+1)
+			return k & 0xffffffff, ok
+		}
+	case *ssa.BinOp:
+		a, ok1 := constU64(x.X, depth+1)
+		b, ok2 := constU64(x.Y, depth+1)
+		if ok1 && ok2 {
+			switch x.Op {
+			case token.ADD:
+				return a + b, true
+			case token.SUB:
+				return a - b, true
+			}
+		}
+	}
+	return 0, false
+}
+
+// R03.31: a saturating conversion clamps to the bound it tested.
+func checkClampValues(c *core.Ctx) {
+	st := c.Rule("R03.31", "a saturating float-to-integer handler clamps to the bound of the integer type: where a handler that converts a floating-point operand to int32 / uint32 branches on `operand <= K`, `operand < K`, `operand >= K` or `operand > K` against a constant at or beyond the type's range, the constant it writes on that branch (directly to WriteOperand, or through the result variable) is the type's minimum for a lower bound and the type's maximum for an upper bound (int32ToBits and constant arithmetic are folded); branches whose value is not a constant are not decided", 6)
+	isFloat := func(t types.Type) bool {
+		b, ok := t.Underlying().(*types.Basic)
+		return ok && b.Info()&types.IsFloat != 0
+	}
+	var rootF func(v ssa.Value) ssa.Value
+	rootF = func(v ssa.Value) ssa.Value {
+		if cv, ok := v.(*ssa.Convert); ok && isFloat(cv.X.Type()) && isFloat(cv.Type()) {
+			return rootF(cv.X)
+		}
+		return v
+	}
+	for _, rel := range []string{emuPkg, cdna3Pkg} {
+		for _, fn := range c.SrcFuncs(rel) {
+			// the handler's conversion: float operand -> int32 / uint32
+			var src ssa.Value
+			var signed bool
+			for _, b := range fn.Blocks {
+				for _, in := range b.Instrs {
+					cv, ok := in.(*ssa.Convert)
+					if !ok || !isFloat(cv.X.Type()) {
+						continue
+					}
+					if _, isC := cv.X.(*ssa.Const); isC {
+						continue
+					}
+					bk, ok := cv.Type().Underlying().(*types.Basic)
+					if !ok {
+						continue
+					}
+					switch bk.Kind() {
+					case types.Int32:
+						src, signed = rootF(cv.X), true
+					case types.Uint32:
+						if src == nil {
+							src, signed = rootF(cv.X), false
+						}
+					}
+				}
+			}
+			if src == nil {
+				continue
+			}
+			var tmin, tmax uint64 = 0, 0xffffffff
+			var fmin, fmax float64 = 0, 4294967295
+			if signed {
+				tmin, tmax = 0x80000000, 0x7fffffff
+				fmin, fmax = -2147483648, 2147483647
+			}
+			for _, b := range fn.Blocks {
+				iff, ok := b.Instrs[len(b.Instrs)-1].(*ssa.If)
+				if !ok {
+					continue
+				}
+				bo, ok := iff.Cond.(*ssa.BinOp)
+				if !ok {
+					continue
+				}
+				var k *ssa.Const
+				side := 0
+				if rootF(bo.X) == src {
+					k, _ = bo.Y.(*ssa.Const)
+					side = 1
+				} else if rootF(bo.Y) == src {
+					k, _ = bo.X.(*ssa.Const)
+					side = -1
+				}
+				if k == nil || k.Value == nil {
+					continue
+				}
+				kv, _ := constant.Float64Val(constant.ToFloat(k.Value))
+				lower := false
+				switch bo.Op {
+				case token.LSS, token.LEQ:
+					lower = side > 0
+				case token.GTR, token.GEQ:
+					lower = side < 0
+				default:
+					continue
+				}
+				var want uint64
+				switch {
+				case lower && kv <= fmin:
+					want = tmin
+				case !lower && kv >= fmax:
+					want = tmax
+				default:
+					continue
+				}
+				// the constant produced on the true branch
+				tb := b.Succs[0]
+				var got []uint64
+				for _, in := range tb.Instrs {
+					if cc := core.CallOf(in); cc != nil && cc.IsInvoke() && cc.Method.Name() == "WriteOperand" && len(cc.Args) == 3 {
+						if v, ok := constU64(cc.Args[2], 0); ok {
+							got = append(got, v)
+						}
+					}
+				}
+				for _, s := range tb.Succs {
+					for _, in := range s.Instrs {
+						phi, ok := in.(*ssa.Phi)
+						if !ok {
+							break
+						}
+						for i, p := range s.Preds {
+							if p == tb {
+								if v, ok := constU64(phi.Edges[i], 0); ok {
+									got = append(got, v)
+								}
+							}
+						}
+					}
+				}
+				if len(got) == 0 {
+					st.Sample("%s: branch on %s bound writes no constant (undecided)", core.FuncName(fn), map[bool]string{true: "lower", false: "upper"}[lower])
+					continue
+				}
+				st.Instances++
+				c.MarkAnalysed(fn)
+				ok2 := true
+				for _, g := range got {
+					if g&0xffffffff != want {
+						ok2 = false
+					}
+				}
+				st.Ob(ok2)
+				if !ok2 {
+					c.ReportAt("R03.31", fn, bo.Pos(), fmt.Sprintf("clamp-value:%v", map[bool]string{true: "lower", false: "upper"}[lower]), fmt.Sprintf("%s tests its operand against the %s bound %v of the destination type but writes %#x on that branch instead of %#x: an input at or beyond the bound does not saturate to the type's limit", core.FuncName(fn), map[bool]string{true: "lower", false: "upper"}[lower], kv, got[0]&0xffffffff, want))
+				}
+			}
+		}
+	}
+}
